@@ -156,6 +156,7 @@ def run_check(prop, tier, seed, repo, jobfilter=None, procs=None):
     for r, ob, kf in known_hits:
         out_lines.append(f"KNOWN-FINDING: property={prop} {kf['what']} [obligation {ob['name']}]")
     wall = round(time.time() - t0, 2)
+    validations = [r["validation"] for r in results if r.get("validation")]
     # ---- evidence --------------------------------------------------------------------------------------
     level = cfg.get("level", "proof")
     ev = {
@@ -175,6 +176,7 @@ def run_check(prop, tier, seed, repo, jobfilter=None, procs=None):
             "repolls_after_exhaustion": repolls,
             "paths_truncated_by_mismatch_reported_under_other_property": truncated,
             "canaries": canary_report,
+            "reference_validation_vs_cpython": validations,
             "explanation": cfg.get("explanation", ""),
             "exhaustive": False,
         },
